@@ -483,6 +483,15 @@ func (in *Interp) floatToInt(t *sym.Term, d *types.Basic) *sym.Term {
 		v := cvtF2I64(f)
 		return c.BVC(w, uint64(v))
 	}
+	// int64(float64(x) * 2^k): exact integer arithmetic while |x| < 2^53
+	// (float64(x) is then exact and scaling by a power of two does not round
+	// before the truncation).
+	if r := in.exactScaledInt(t, d); r != nil {
+		return r
+	}
+	if t.Op == sym.OpIte && t.Args[1].IsConst() && t.Args[2].IsConst() {
+		return c.Ite(t.Args[0], in.floatToInt(t.Args[1], d), in.floatToInt(t.Args[2], d))
+	}
 	in.note("float->int conversion modelled with amd64 semantics for out-of-range values")
 	two63 := c.F64C(math.Ldexp(1, 63))
 	inRange := c.And(c.FLt(t, two63), c.FLe(c.F64C(-math.Ldexp(1, 63)), t))
@@ -1007,4 +1016,51 @@ func (in *Interp) concreteString(v Value, why string) string {
 		return string(out)
 	}
 	panic(fmt.Sprintf("concreteString: %T", v))
+}
+
+// exactScaledInt rewrites int64(float64(x)*2^k) (x a 64-bit signed integer
+// term) into integer arithmetic when the path condition bounds |x| < 2^53.
+func (in *Interp) exactScaledInt(t *sym.Term, d *types.Basic) *sym.Term {
+	c := in.ctx
+	if in.width(d) != 64 || d.Info()&types.IsUnsigned != 0 {
+		return nil
+	}
+	neg := false
+	if t.Op == sym.OpFNeg {
+		neg = true
+		t = t.Args[0]
+	}
+	k := 0
+	base := t
+	if t.Op == sym.OpFMul && t.Args[1].IsConst() {
+		f := t.Args[1].Float()
+		fr, e := math.Frexp(f)
+		if fr != 0.5 {
+			return nil
+		}
+		k = e - 1
+		base = t.Args[0]
+	}
+	if base.Op != sym.OpSToF || base.Args[0].Sort.W != 64 || k > 9 || k < -62 {
+		return nil
+	}
+	x := base.Args[0]
+	lim := c.BVC(64, 1<<53)
+	inRange := c.And(c.SLt(x, lim), c.SLt(c.Neg(lim), x))
+	if !in.mustBeFalse(c.Not(inRange)) {
+		return nil
+	}
+	var r *sym.Term
+	switch {
+	case k == 0:
+		r = x
+	case k > 0:
+		r = c.Mul(x, c.BVC(64, uint64(1)<<uint(k)))
+	default:
+		r = c.SDiv(x, c.BVC(64, uint64(1)<<uint(-k))) // Go's conversion truncates toward zero like SDiv
+	}
+	if neg {
+		r = c.Neg(r)
+	}
+	return r
 }
